@@ -28,7 +28,16 @@ theorem easter_sunday_range (y : Int) (hy : -4712 ≤ y) :
     relig_dow (compute_jde y (easter y).1 (ofInt (easter y).2)) = 0 := by
   obtain ⟨he, h22, h56⟩ := easterI_computus y
   have hs := computus_sunday y
-  rw [easter_int, he, compute_jde_int, relig_dow_int]
+  have hval : Valid y (Computus.easter y).1 (Computus.easter y).2 := by
+    unfold Computus.easter
+    by_cases h : Computus.easterMarchDay y ≤ 31
+    · simp only [h, if_true]
+      refine ⟨hy, by decide, by decide, by omega, ?_, by rintro ⟨_, h10, _⟩; exact absurd h10 (by decide)⟩
+      unfold monthLen; simpa using h
+    · simp only [h, if_false]
+      refine ⟨hy, by decide, by decide, by omega, ?_, by rintro ⟨_, h10, _⟩; exact absurd h10 (by decide)⟩
+      unfold monthLen; simp; omega
+  rw [easter_int, he, compute_jde_int _ _ _ hval, relig_dow_int]
   unfold Computus.easter
   unfold Computus.weekday at hs
   by_cases h : Computus.easterMarchDay y ≤ 31
@@ -67,7 +76,14 @@ theorem pesach (y : Int) (h1 : 1 ≤ y) (h2 : y ≤ 3000) :
   unfold pesachCheck Hebrew.yearOfPesach at hc
   simp only [Bool.and_eq_true, Bool.or_eq_true, decide_eq_true_eq] at hc
   obtain ⟨⟨hj, hw⟩, hv⟩ := hc
-  rw [compute_jde_int, relig_dow_int, jewish_pesach_int, hj]
+  have hval : Valid y (jewish_pesach y).1 (jewish_pesach y).2 := by
+    rw [jewish_pesach_int]
+    rcases hv with ⟨⟨hm, hd1⟩, hd2⟩ | ⟨⟨hm, hd1⟩, hd2⟩
+    · refine ⟨by omega, by omega, by omega, hd1, ?_, by omega⟩
+      rw [hm]; exact hd2
+    · refine ⟨by omega, by omega, by omega, hd1, ?_, by omega⟩
+      rw [hm]; exact hd2
+  rw [compute_jde_int _ _ _ hval, relig_dow_int, jewish_pesach_int, hj]
   refine ⟨?_, rfl, ?_, ?_⟩
   · rcases hv with ⟨⟨hm, hd1⟩, hd2⟩ | ⟨⟨hm, hd1⟩, hd2⟩
     · refine ⟨by omega, by omega, by omega, hd1, ?_, by omega⟩
@@ -93,7 +109,7 @@ theorem moslem2gregorian_tabular (h m d : Int) (hv : Islamic.Valid h m d) :
     ∃ (y' m' d' : Int) (D : Int ⊕ ℚ), moslem2gregorian h m d = .ok (y', m', D) ∧ dayQ D = (d' : ℚ) ∧
       Valid y' m' d' ∧ compute_jde y' m' (ofInt d') = (Islamic.jdn h m d : ℚ) - 1 / 2 := by
   obtain ⟨y', m', d', D, e1, e2, e3, e4⟩ := m2gI_correct h m d hv
-  exact ⟨y', m', d', D, by rw [moslem2gregorian_int, e1], e2, e3, by rw [compute_jde_int, e4]⟩
+  exact ⟨y', m', d', D, by rw [moslem2gregorian_int, e1], e2, e3, by rw [compute_jde_int _ _ _ e3, e4]⟩
 
 /-- "both directions agree with the arithmetic Islamic calendar", civil -> Moslem: for every civil
     date from 16 July 622 on (no upper bound) `gregorian2moslem` returns -- in particular its two
@@ -104,7 +120,7 @@ theorem gregorian2moslem_tabular (y m d : Int) (hv : Valid y m d)
     ∃ h' m' d', gregorian2moslem y m d = .ok (h', m', d') ∧ Islamic.Valid h' m' d' ∧
       ((Islamic.jdn h' m' d' : Int) : ℚ) - 1 / 2 = compute_jde y m (ofInt d) := by
   obtain ⟨h', m', d', e1, e2, e3⟩ := g2m_correct y m d hv (jdnI_ge_epoch y m d hv h622)
-  exact ⟨h', m', d', e1, e2, by rw [compute_jde_int, e3]⟩
+  exact ⟨h', m', d', e1, e2, by rw [compute_jde_int _ _ _ hv, e3]⟩
 
 /-- The two `while` loops of `gregorian2moslem` (the model runs them with fuel `g2m_fuel` = 8 and
     reports `.error .other` if it runs out) terminate for EVERY argument triple, valid date or not:
